@@ -30,6 +30,19 @@ theorem cfg_gen : Golem.Gen.Fork.Fold.cfg = StageCfg.forkFold := rfl
 theorem init_gen (e : α) : Golem.Gen.Fork.Fold.init e = e := rfl
 /-- the collector goroutine after `wg.Wait()`: start from `m.Empty()`, combine exactly `par` partial results
 received from `vals`, send the result on `done`, close `vals`, close `done` -/
-theorem collector_gen : Golem.Gen.Fork.Fold.collector = StageCfg.forkFoldCollector := rfl
+theorem collector_gen_hand (c : α → α → α) (e : α) (par : Nat) (vs : List α) (h : vs.length = par) :
+    (collRun c e par 1 0 StageCfg.forkFoldCollector { vals := vs }).map CollSt.obs = some ([vs.foldl c e], true, true, []) := by
+  subst h
+  simp [StageCfg.forkFoldCollector, collRun, CollOp.run, CollSt.obs]
+
+/-- The REGENERATED collector, run as a program on what the workers left in `vals` (exactly `par` partial results:
+`Go/ForkFold`'s invariant at `wg.Wait()`), sends the left fold of those values from `m.Empty()` on `done` once, closes
+`done` and `vals`, and leaves `vals` empty — the observable behaviour of the collector of `Go/ForkFold.collNext`
+(`collector_gen_hand`). Stated on behaviour, not on the text: counting `par` receives and closing `vals` first and
+ranging over it are the same collector. -/
+theorem collector_gen (c : α → α → α) (e : α) (par : Nat) (vs : List α) (h : vs.length = par) :
+    (collRun c e par 1 0 Golem.Gen.Fork.Fold.collector { vals := vs }).map CollSt.obs = some ([vs.foldl c e], true, true, []) := by
+  subst h
+  simp [Golem.Gen.Fork.Fold.collector, collRun, CollOp.run, CollSt.obs]
 
 end Golem.Props.Stage.ForkFold
